@@ -18,7 +18,7 @@ def _bounded(tier):
 PROP = Prop(
     'C18',
     contracts=[REGISTRY[k] for k in FRAMES[:2]],
-    claims=['*::frame.no_write_to_the_template_or_its_defaults', 'frame.write.*', 'frame.publish.*'],
+    claims=['*::frame.no_write_to_the_template_or_its_defaults', 'frame.write.*', 'frame.publish.*', '*::frame.publish.*'],
     structural=[write_sites, publication],
     native_default=native_c18.native_for,
     bounded=[_bounded],
